@@ -1,6 +1,6 @@
 """Path summaries: every control path of a (possibly partially evaluated) method body as
     facts   {canonical test text: assumed truth}
-    events  ordered calls ('call', callee text, (arg texts...), lineno) and attribute / element stores ('store', target text, lineno)
+    events  ordered calls ('call', callee text, (arg texts...), lineno) and attribute / element stores ('store', target text, lineno, value text); ('except', '', lineno) marks the entry of a handler
     ret     canonical text of the returned expression (None for a fall-through, '<none>' for a bare return)
 Locals are resolved to the expression they were last assigned on that path (so a rule never sees what a temporary is called);
 a local that is re-assigned from itself composes (`v = v and c`).  Built on the structured flow engine (all paths, no execution).
@@ -112,7 +112,7 @@ class PathDomain(Domain):
                         if isinstance(x, ast.Name):
                             d[x.id] = None
                 else:
-                    events = events + (('store', norm_text(self._canon(t, env)), stmt.lineno),)
+                    events = events + (('store', norm_text(self._canon(t, env)), stmt.lineno, val),)
         elif isinstance(stmt, ast.AugAssign):
             events = self._calls(stmt.value, env, events)
             if isinstance(stmt.target, ast.Name):
@@ -180,6 +180,10 @@ class PathDomain(Domain):
     def effects(self, expr, state):
         env, facts, events = state
         return ((env, facts, self._calls(expr, env, events)),)
+
+    def handler_enter(self, handler, state):
+        env, facts, events = state
+        return ((env, facts, events + (('except', '', handler.lineno),)),)
 
     def enter_loop(self, node, state):
         env, facts, events = state
